@@ -45,7 +45,9 @@ class FakePopen:
     def __init__(self, command, stdin=None, stdout=None, stderr=None, encoding=None):
         env = FakePopen.env
         if not env.launch_ok:
-            raise FileNotFoundError(2, "No such file or directory", command[0])
+            # a launch can fail in several ways: missing binary, a NUL character in a path, a non-string argument
+            raise [FileNotFoundError(2, "No such file or directory", command[0]), ValueError("embedded null byte"),
+                   TypeError("expected str, bytes or os.PathLike object, not int")][env.perm % 3]
         self.command = list(command)
         self.returncode = None
         self.killed = False
@@ -159,7 +161,7 @@ def temp_paths(app):
 
 
 OPS = ["start", "join", "join_timeout", "cancel", "get_app_state", "setter", "get_alignment", "get_exit_code",
-       "get_alignment_order", "get_command"]
+       "get_alignment_order", "get_command", "get_stdout", "get_stderr"]
 
 
 def run_sequence(kind, env_tuple, ops):
@@ -203,6 +205,8 @@ def run_sequence(kind, env_tuple, ops):
                 "get_alignment_order": model == "JOINED",
                 "get_exit_code": model in ("FINISHED", "JOINED"),
                 "get_command": model != "CREATED",
+                "get_stdout": model in ("FINISHED", "JOINED"),
+                "get_stderr": model in ("FINISHED", "JOINED"),
             }[name]
             if name == "join" and env.hang and allowed:
                 continue        # would block forever with a real program: not part of the bounded exploration
@@ -231,6 +235,10 @@ def run_sequence(kind, env_tuple, ops):
                     res = app.get_alignment_order()
                 elif name == "get_exit_code":
                     res = app.get_exit_code()
+                elif name == "get_stdout":
+                    res = app.get_stdout()
+                elif name == "get_stderr":
+                    res = app.get_stderr()
                 elif name == "get_command":
                     res = app.get_command()
                 exc = None
@@ -291,6 +299,12 @@ def run_sequence(kind, env_tuple, ops):
             elif name == "get_exit_code":
                 if res != (0 if env.exit_ok else FAIL_CODES[env.perm % 3]):
                     return False, f"exit code {res}"
+            elif name == "get_stdout":
+                if res != getattr(env.procs[-1], "stdout_text", ""):
+                    return False, f"get_stdout() = {res!r}, the program wrote {getattr(env.procs[-1], 'stdout_text', '')!r}"
+            elif name == "get_stderr":
+                if res != ("" if env.exit_ok else "error message"):
+                    return False, f"get_stderr() = {res!r}"
             # ---- resources after every call
             if os.getcwd() != cwd0:
                 return False, f"working directory changed to {os.getcwd()} after {name}"
@@ -477,6 +491,55 @@ def check_many_sequences(kind_i, n, perm_i):
     return None
 
 
+def check_custom_alphabet(kind_i, perm_i):
+    """sequences over a user-defined alphabet (aligned through the wrappers' mapping onto protein letters with a custom
+    matrix): the returned alignment holds the INPUT sequences (type, alphabet, symbols), not the intermediate ones"""
+    from biotite.sequence import Alphabet, GeneralSequence
+    from biotite.sequence.align import SubstitutionMatrix
+    from biotite.application.clustalo import ClustalOmegaApp
+    from biotite.application.mafft import MafftApp
+    from biotite.application.muscle import MuscleApp, Muscle5App
+    import biotite.application.muscle.app3 as app3
+    import biotite.application.muscle.app5 as app5
+    app3.get_version = lambda *a, **k: (3, 8)
+    app5.get_version = lambda *a, **k: (5, 1)
+    base = [ClustalOmegaApp, MafftApp, MuscleApp, Muscle5App][kind_i]
+    alph = Alphabet(["foo", "bar", 42, "x"])
+    seqs = [GeneralSequence(alph, ["foo", "bar", 42]), GeneralSequence(alph, ["x", "x"]), GeneralSequence(alph, [42, "bar", "foo", "x"])]
+    matrix = SubstitutionMatrix(alph, alph, np.eye(4, dtype=np.int32) * 6 - 2)
+    counter = {"clean_up": 0}
+
+    class Counted(base):
+        def clean_up(self):
+            counter["clean_up"] += 1
+            super().clean_up()
+    try:
+        app = Counted(seqs, bin_path="/nonexistent/fake", matrix=matrix)
+    except (TypeError, ValueError):
+        return None          # this wrapper does not take custom matrices / alphabets (documented per wrapper)
+    global SEQS, GAPPED, PERMS
+    saved = (SEQS, GAPPED, PERMS, localapp.Popen)
+    SEQS, GAPPED, PERMS = ["AAA", "AA", "AAAA"], ["AAA-", "-AA-", "AAAA"], [[(0, 1, 2), (2, 0, 1), (1, 2, 0)][perm_i]]
+    localapp.Popen = FakePopen
+    FakePopen.env = Env(True, False, True, 0, 0)
+    cwd = os.getcwd()
+    try:
+        app.start()
+        app.join()
+        aln = app.get_alignment()
+    finally:
+        SEQS, GAPPED, PERMS, localapp.Popen = saved
+        os.chdir(cwd)
+    for i, (got, want) in enumerate(zip(aln.sequences, seqs)):
+        if type(got) is not GeneralSequence or got.alphabet != alph or list(got.symbols) != list(want.symbols):
+            return f"row {i} of the alignment holds {type(got).__name__} {list(got.symbols)} over {got.alphabet}, the input was {list(want.symbols)}"
+    if aln.trace.tolist() != [[0, -1, 0], [1, 0, 1], [2, 1, 2], [-1, -1, 3]]:
+        return f"trace {aln.trace.tolist()}"
+    if counter["clean_up"] != 1:
+        return f"clean_up ran {counter['clean_up']} times"
+    return None
+
+
 def _rep2(f, *keys):
     def g(w):
         try:
@@ -498,7 +561,14 @@ def ob_generic(tier):
     def run_many():
         ex = cur()
         return check_many_sequences(ex.choose(k, range(4)), ex.choose(n, (11, 12, 23)), ex.choose(q, range(3))) is None
-    return [Case("polling join of a non-local application", [p >= 0, p < 4, t >= 0, t < 4, e >= 0, e <= 1], run_join, dict(polls_needed=p, timeout_i=t, evaluate_fails=e),
+    ck, cq = z3.Ints("ck cq")
+
+    def run_custom():
+        ex = cur()
+        return check_custom_alphabet(ex.choose(ck, range(4)), ex.choose(cq, range(3))) is None
+    custom = Case("MSA wrappers with sequences over a user-defined alphabet", [ck >= 0, ck < 4, cq >= 0, cq < 3], run_custom, dict(kind_i=ck, perm_i=cq),
+                  _rep2(check_custom_alphabet, "kind_i", "perm_i"))
+    return [custom, Case("polling join of a non-local application", [p >= 0, p < 4, t >= 0, t < 4, e >= 0, e <= 1], run_join, dict(polls_needed=p, timeout_i=t, evaluate_fails=e),
                  _rep2(check_generic_join, "polls_needed", "timeout_i", "evaluate_fails")),
             Case("MSA wrappers with more than ten sequences", [k >= 0, k < 4, z3.Or(n == 11, n == 12, n == 23), q >= 0, q < 3], run_many, dict(kind_i=k, n=n, perm_i=q),
                  _rep2(check_many_sequences, "kind_i", "n", "perm_i"))]
